@@ -18,7 +18,7 @@ import (
 // C06 — elliptical arcs. Engine P over (radii, rotation, flags, start, end,
 // abs/rel, viewBox, rectangle).
 
-var c06Radii = []float32{0, 0.5, 1, 3, 20, -3}
+var c06Radii = []float32{0, 0.5, 1, 3, 20, -3, 1.0 / 1024} // the last: far below a pixel, scaled up like any radius that is too small
 var c06Rot = []float32{0, 1.0 / 24, 0.125, 0.25, 0.3, 0.5, 0.9, -0.1, 1.25}
 
 func c06Lattice(thorough bool) [][2]float32 {
@@ -52,7 +52,7 @@ func init() {
 	mc.Register(&mc.Check{
 		ID:    "C06",
 		Level: "exploration",
-		Rule: "engine P: radii {0,0.5,1,3,20,-3}^2 x rotation {0,1/24,1/8,1/4,0.3,0.5,0.9,-0.1,1.25} x 4 flag combinations x start and end points from a 7x7 (thorough 12x12) lattice plus three end points 1/64 away from the start and six end points a diameter away along the rotated axes (+- one float32 step; start != end) x {absolute, relative} x 4 viewBoxes x 3 rectangles (non-uniform scale, off-origin), each driven into a real Renderer over a recording rasteriser; plus 21 flags naturals (reserved bits set) x every width x {absolute, relative} through the decoder against the direct call; for two lattice columns of end points the arc is also judged as a later operation of its path (after a proper arc; after a proper arc and a zero-radius arc; after a cubic and a zero-radius arc; after a previous graphic whose last arc ended on the same pixel; after an undrawn path containing a relative arc). " +
+		Rule: "engine P: radii {0,0.5,1,3,20,-3,2^-10}^2 x rotation {0,1/24,1/8,1/4,0.3,0.5,0.9,-0.1,1.25} x 4 flag combinations x start and end points from a 7x7 (thorough 12x12) lattice plus three end points 1/64 away from the start and six end points a diameter away along the rotated axes (+- one float32 step; start != end) x {absolute, relative} x 4 viewBoxes x 3 rectangles (non-uniform scale, off-origin), each driven into a real Renderer over a recording rasteriser; plus 21 flags naturals (reserved bits set) x every width x {absolute, relative} through the decoder against the direct call; for two lattice columns of end points the arc is also judged as a later operation of its path (after a proper arc; after a proper arc and a zero-radius arc; after a cubic and a zero-radius arc; after a previous graphic whose last arc ended on the same pixel; after an undrawn path containing a relative arc). " +
 			"Oracle: zero radius => one LineTo to the mapped end point; else 1..4 CubeTo ending at the mapped end point; every cubic's end point and its points at t=1/4,1/2,3/4, un-mapped to viewBox space, lie on the ellipse given by an independent SVG F.6.5 centre computation (radii scaled up when too small); the accumulated sweep has the sign of the sweep flag and exceeds a half turn iff large-arc. " +
 			"distinct = (number of cubics, scaled-up, flags, zero radius); non-trivial = arc emitted as cubics",
 		Assumptions: []string{"configurations within 1e-6 of a half turn are skipped and counted (flags do not determine the arc there)", "tolerances: 1e-4 R for end points, 5e-4 R for interior points (standard 4/3 tan(theta/4) construction, <= 90 degree pieces)"},
@@ -64,6 +64,11 @@ func init() {
 				return
 			}
 			rx, ry, rot := c06Radii[u/(nr*len(c06Rot))], c06Radii[u/len(c06Rot)%nr], c06Rot[u%len(c06Rot)]
+			if (rx == 1.0/1024) != (ry == 1.0/1024) {
+				// the sub-pixel radius is paired with itself only: scaled up beside an ordinary radius it
+				// gives an ellipse thousands of times longer than wide, beyond float32 pixel precision
+				return
+			}
 			pts := c06Lattice(w.Thorough)
 			st := &c06State{w: w}
 			for fl := 0; fl < 4; fl++ {
@@ -74,7 +79,7 @@ func init() {
 					// chords that are exactly a diameter along a (rotated) axis, give or take one float32
 					// step: the radii check lands on 1 or an ulp beside it. The centre is ill-conditioned
 					// there (not judged), but the arc must still be emitted, finite, and end at its end point
-					if rx != 0 && ry != 0 {
+					if rx != 0 && ry != 0 && rx != 1.0/1024 { // (a diameter of 2^-9 units is at the resolution of float32 pixel coordinates)
 						co, si := math.Cos(2*math.Pi*float64(rot)), math.Sin(2*math.Pi*float64(rot))
 						for _, d := range [][2]float64{{2 * math.Abs(float64(rx)) * co, 2 * math.Abs(float64(rx)) * si}, {-2 * math.Abs(float64(ry)) * si, 2 * math.Abs(float64(ry)) * co}} {
 							ex, ey := p1[0]+float32(d[0]), p1[1]+float32(d[1])
